@@ -66,6 +66,13 @@ def worker_main(argv):
     ap.add_argument("--out", required=True)
     ap.add_argument("--maxviol", type=int, default=40)
     a = ap.parse_args(argv)
+    try:
+        # a runaway allocation in the code under observation (e.g. an arc of a billion points after a parsing change) must
+        # surface as a MemoryError inside the case, not as the kernel killing the worker
+        import resource
+        resource.setrlimit(resource.RLIMIT_AS, (8 << 30, 8 << 30))
+    except Exception:  # noqa: B902
+        pass
     mon = load_monitor(a.pid)
     t0 = time.time()
     stats = collections.Counter()
@@ -174,7 +181,12 @@ def main(argv=None):
     sys.path.insert(0, ROOT)
     for d in ("evidence", "replays", "work"):
         os.makedirs(os.path.join(ROOT, d), exist_ok=True)
-    mon = load_monitor(pid)
+    try:
+        mon = load_monitor(pid)
+    except Exception as exc:  # noqa: B902 - the plugin under observation does not even import
+        print("INCONCLUSIVE property=%s reason=the code under observation (or a monitor) failed to import: %s: %s"
+              % (pid, type(exc).__name__, str(exc)[:300]))
+        return 2
     findings = load_findings()
 
     if a.replay:
